@@ -85,6 +85,26 @@ Record meas_oracle : Type := {
 (* UncertainValue::add_uncertainty *)
 Definition add_uncertainty (u extra : float) : float := sqrt (u * u + extra * extra)%float.
 
+(* first use of a link: mark it active and, when tracked, give its delay a row in the estimator *)
+Definition f_activate (l : flink) (delay noise : float) (f : filter) : res filter :=
+  if fl_active l then Ok f
+  else
+    let ls := set_active (fl_id l) true (f_links f) in
+    if fl_tracked l
+    then do e <- add_link FO (fl_id l) delay noise (fl_decay l) (f_est f); Ok {| f_links := ls; f_est := e |}
+    else Ok {| f_links := ls; f_est := f_est f |}.
+
+Definition f_deactivate (l : flink) (f : filter) : res filter :=
+  if fl_active l then
+    let ls := set_active (fl_id l) false (f_links f) in
+    if fl_tracked l
+    then do e <- remove_link FO (fl_id l) (f_est f); Ok {| f_links := ls; f_est := e |}
+    else Ok {| f_links := ls; f_est := f_est f |}
+  else Ok f.
+
+Definition f_measure (l : flink) (forward : bool) (value unc noise : float) : filter -> res filter :=
+  on_est (measurement FO (fl_id l) forward value (add_uncertainty unc noise) (fl_tracked l)).
+
 Definition f_measurement (o : meas_oracle) (id : linkid) (forward : bool) (value unc : float)
     (f : filter) : res filter :=
   match find (fun l => linkid_eqb (fl_id l) id) (f_links f) with
@@ -93,28 +113,13 @@ Definition f_measurement (o : meas_oracle) (id : linkid) (forward : bool) (value
       match (if fl_tracked l then mo_estimates o else Some (0%float, 0%float)) with
       | None => Ok f
       | Some (delay, noise) =>
-          let activate (f : filter) : res filter :=
-            if fl_active l then Ok f
-            else
-              let ls := set_active id true (f_links f) in
-              if fl_tracked l
-              then do e <- add_link FO id delay noise (fl_decay l) (f_est f); Ok {| f_links := ls; f_est := e |}
-              else Ok {| f_links := ls; f_est := f_est f |} in
-          let measure (f : filter) : res filter :=
-            on_est (measurement FO id forward value (add_uncertainty unc noise) (fl_tracked l)) f in
           if fl_external l then
             match mo_consensus o with
             | None => Ok f
-            | Some true => do f1 <- activate f; measure f1
-            | Some false =>
-                if fl_active l then
-                  let ls := set_active id false (f_links f) in
-                  if fl_tracked l
-                  then do e <- remove_link FO id (f_est f); Ok {| f_links := ls; f_est := e |}
-                  else Ok {| f_links := ls; f_est := f_est f |}
-                else Ok f
+            | Some true => do f1 <- f_activate l delay noise f; f_measure l forward value unc noise f1
+            | Some false => f_deactivate l f
             end
-          else do f1 <- activate f; measure f1
+          else do f1 <- f_activate l delay noise f; f_measure l forward value unc noise f1
       end
   end.
 
